@@ -76,8 +76,39 @@ def timestamp_words(code):
     return ','.join(rows) or '-'
 
 
+_SIG_CACHE = {}
+
+
+def check_signature(key, sig, msg):
+    """what CheckSignatureInstruction computes for the triple: True if `Key.verify` returns, False if it raises ValueError (None:
+    anything else happens — the triple is then left out of the table and the real run will differ from the model)"""
+    t = (key, sig, msg)
+    if t not in _SIG_CACHE:
+        from pytezos.crypto.key import Key
+        try:
+            Key.from_encoded_key(key).verify(signature=sig, message=bytes.fromhex(msg))
+            _SIG_CACHE[t] = True
+        except ValueError:
+            _SIG_CACHE[t] = False
+        except Exception:      # noqa
+            _SIG_CACHE[t] = None
+    return _SIG_CACHE[t]
+
+
+def signature_words(code):
+    """13th environment word: `hex(key):hex(signature):hex(message):0|1,…` — the instance of the model's parameter `Hashes.checkSig`"""
+    if '"CHECK_SIGNATURE"' not in json.dumps(code):
+        return '-'
+    rows = []
+    for k, s, m in gen_interp.sig_triples(code):
+        v = check_signature(k, s, m)
+        if v is not None:
+            rows.append(f'{k.encode().hex()}:{s.encode().hex()}:{m or "-"}:{int(v)}')
+    return ','.join(rows) or '-'
+
+
 def prog_line(code, env):
-    return f'{FUEL} | {env_words(env)} {timestamp_words(code)} | {mich.to_line(for_model(code, env))}'
+    return f'{FUEL} | {env_words(env)} {timestamp_words(code)} {signature_words(code)} | {mich.to_line(for_model(code, env))}'
 
 
 def parse_model(out):
